@@ -22,10 +22,11 @@ EXPLANATION = (
     "(no raise of another exception type in the discretizer/carver modules); R-index-compare (the "
     "element-wise comparison of X.index and y.index is preceded by a length test); R-validation-reached "
     "(call graph: every concrete class' fit reaches the common validator, and no _prepare_data override "
-    "dereferences X before the base validator has asserted its type)."
+    "dereferences X before the base validator has asserted its type); R-forward-target (every call of a "
+    "_prepare_data validator, at fit and at transform, hands over the caller's own y / y_dev with X / X_dev)."
 )
 NOT_DECIDED = "behaviour of pandas on exotic malformed inputs; implicit exceptions inside library calls"
-FLOORS = {"R-guard-first": 12, "R-validation-table": 16, "R-index-compare": 1, "R-assert-only": 2, "R-validation-reached": 20}
+FLOORS = {"R-guard-first": 12, "R-validation-table": 16, "R-index-compare": 1, "R-assert-only": 2, "R-validation-reached": 20, "R-forward-target": 24}
 
 
 # ---------------------------------------------------------------------------------------------
@@ -437,8 +438,40 @@ def rule_validation_reached(ctx):
                "" if not early else f"`{short(early[0])}` runs before the type assertion: a non-DataFrame X raises AttributeError / TypeError instead of AssertionError")
 
 
+def rule_forward_target(ctx):
+    """Every call of a _prepare_data validator hands over the caller's own target(s): X travels with
+    y, X_dev with y_dev.  A validator called without the target accepts any target."""
+    R = "R-forward-target"
+    order = ["X", "y", "X_dev", "y_dev"]
+    pair = {"X": "y", "X_dev": "y_dev"}
+    for fi in ctx.repo.all_functions():
+        if fi.cls is None:
+            continue
+        for c in calls(fi):
+            if not (isinstance(c.func, ast.Attribute) and c.func.attr.endswith("_prepare_data")):
+                continue
+            bound = {}
+            for i, a in enumerate(c.args):
+                if i < len(order):
+                    bound[order[i]] = unparse(a)
+            for k in c.keywords:
+                if k.arg:
+                    bound[k.arg] = unparse(k.value)
+            bad = None
+            first = bound.get("X")
+            if first in pair and pair[first] in fi.params and bound.get("y") != pair[first]:
+                bad = f"`{first}` is validated without `{pair[first]}`"
+            if "X_dev" in bound and "y_dev" in fi.params and bound.get("X_dev") == "X_dev" and bound.get("y_dev") != "y_dev":
+                bad = "`X_dev` is validated without `y_dev`"
+            if "X_dev" in fi.params and c.func.attr == "_prepare_data" and isinstance(c.func.value, ast.Name) and c.func.value.id == "self" and fi.name == "fit" and bound.get("X_dev") != "X_dev":
+                bad = "`X_dev` is not handed to the validator"
+            ctx.ob(R, construct(fi, f"`{short(c, 70)}` forwards the caller's target(s)"), bad is None, loc(fi, c),
+                   "" if bad is None else bad + ": a target with missing values, another index or the wrong type is no longer refused here")
+
+
 def check(ctx):
     rule_validation_reached(ctx)
+    rule_forward_target(ctx)
     rule_guard_first(ctx)
     rule_validation_table(ctx)
     rule_assert_only(ctx)
@@ -464,6 +497,8 @@ MUTANTS = [
       "R-guard-first", "BaseDiscretizer.fit"),
     M("D21-reverted: ContinuousDiscretizer.fit skips the validation", [(F_QUAN, "        # checking data before bucketization\n        x_copy = self._prepare_data(X, y)\n\n        # storing ordering", "        x_copy = X\n\n        # storing ordering")], "R-validation-reached", "ContinuousDiscretizer.fit", quick=True),
     M("D22-reverted: ChainedDiscretizer copies X before validating it", [(F_QUAL, "        # checking for binary target and previous fit\n        x_copy = super()._prepare_data(X, y)\n\n        # copying dataframe\n        x_copy = x_copy.copy()\n", "        # copying dataframe\n        x_copy = X.copy()\n\n        # checking for binary target and previous fit\n        x_copy = super()._prepare_data(x_copy, y)\n")], "R-validation-reached", "ChainedDiscretizer._prepare_data", quick=True),
+    M("transform(X, y) no longer validates y", [(F_BASE, "        x_copy = self.__prepare_data(X, y)", "        x_copy = self.__prepare_data(X)")], "R-forward-target", "BaseDiscretizer.transform"),
+    M("dev target not validated", [(F_BC, "        x_dev_copy = super()._prepare_data(X_dev, y_dev)", "        x_dev_copy = super()._prepare_data(X_dev)")], "R-forward-target", "BaseCarver._prepare_data"),
     M("StringDiscretizer.fit skips the validation", [(F_TYPE, "        x_copy = self._prepare_data(X, y)  # X[self.features].fillna(self.str_nan)", "        x_copy = X  # X[self.features].fillna(self.str_nan)")], "R-validation-reached", "StringDiscretizer.fit"),
     M("D10-reverted: length test dropped", [(F_BASE, "assert len(y.index) == len(X.index) and all(", "assert all(")], "R-index-compare", quick=True),
     M("X type assertion removed", [(F_BASE, "            assert isinstance(\n                X, DataFrame\n            ), f\" - [Discretizer] X must be a pandas.DataFrame, instead {type(X)} was passed\"\n", "")],
